@@ -37,6 +37,9 @@ def step (s : St) : List String → St × String
     match call m s.sim with
     | .ok s' => ({ s with sim := s' }, reply "ok" s.sim s')
     | .error (f, s') => ({ s with sim := s' }, reply ("err:" ++ failName f) s.sim s')
+  | ["ctx", "fail", e] =>
+    let s' := { s.sim with ctl := { s.sim.ctl with failOn := e } }
+    ({ s with sim := s' }, reply "ok" s.sim s')
   | ["ctx", "run"] =>
     match run 100000 s.sim with
     | .ok s' => ({ s with sim := s' }, reply "ok" s.sim s')
